@@ -12,7 +12,7 @@ ID = 'C10'
 LEVEL = 'exploration'
 BUDGET = {'quick': 240, 'thorough': 2400}
 CHUNK = 1
-RULE = ('Cases: histories of 1..8 operations over {merge on either side, delete, weed, reverse weed, filter-only weed with every '
+RULE = ('Cases: histories of 1..8 operations over {merge on either side, delete (names on the command line or in a names file, also with blank lines), weed, reverse weed, an operation that is refused or fails (weed file without k-mers or missing, unknown or all names, merge with another k onto the file itself, unwritable output) and must leave the content as it was, filter-only weed with every '
         'site filter / threshold / --filter-ambig-as-missing / --ambig-mask / --no-gap-only-sites, plain reload} applied with the '
         'real ska to a starting table rich in ambiguity codes; forced templates (count-changing filter then a threshold align '
         'without that flag; mask then count; delete then filter; merge after filter; weed to empty then merge).  After every '
@@ -26,7 +26,7 @@ ASSUMPTIONS = ['weed rounds its frequency threshold down, align up (DESIGN.md se
 TEMPLATES = ['famfilter_then_align', 'mask_then_count', 'delete_then_filter', 'merge_after_filter', 'weed_empty_then_merge']
 REQUIRED = {t: ['template:' + x for x in TEMPLATES] + ['op:merge', 'op:delete', 'op:weed', 'op:rweed', 'op:filter', 'op:reload',
                                                         'final_align_compared', 'final_distance_compared', 'final_map_compared',
-                                                        'final_weed_compared', 'final_delete_compared', 'fresh_via_build', 'fresh_via_library', 'stored_objects_checked']
+                                                        'final_weed_compared', 'final_delete_compared', 'fresh_via_build', 'fresh_via_library', 'stored_objects_checked', 'op:refused']
             for t in ('quick', 'thorough')}
 FILTERS = ['no-filter', 'no-const', 'no-ambig', 'no-ambig-or-const']
 
@@ -60,6 +60,12 @@ def freq_choices(n):
     if n % 5 == 0:
         out += ['0.2', '0.4', '0.6', '0.8']
     return out
+
+
+class OK:
+    """Stand-in for a finished process whose exit status is not what is being judged."""
+    def __init__(self, stderr='', real=0):
+        self.returncode, self.stderr, self.real = 0, stderr, real
 
 
 class History:
@@ -120,12 +126,50 @@ class History:
             return None, None
         if dn is None:
             dn = self.rng.sample(range(n_), self.rng.randint(1, n_ - 1))
-        p = self.run('delete', '-s', self.cur, *[self.names[i] for i in dn])
-        before = len(self.T)
+        route = self.rng.choice(['cli', 'cli', 'file', 'file-blank-lines'])
+        dnames = [self.names[i] for i in dn]
+        if route == 'cli':
+            p = self.run('delete', '-s', self.cur, *dnames)
+        else:
+            lines = list(dnames)
+            if route == 'file-blank-lines':
+                lines.insert(self.rng.randint(1, len(lines)), self.rng.choice(['', '  ']))
+            self.ctx.write('del_names.txt', '\n'.join(lines) + '\n')
+            p = self.run('delete', '-s', self.cur, '-f', self.ctx.path('del_names.txt'))
+            if route == 'file-blank-lines' and p.returncode != 0:
+                # whether blank lines are tolerated is not stated; a refusal must then be without effect
+                return OK(p.stderr), 'refused(delete, names file with a blank line)'
         self.T = M.t_delete(self.T, set(dn))
         self.names = [x for i, x in enumerate(self.names) if i not in dn]
         self.changed += 1
-        return p, 'delete(%s)' % sorted(dn)
+        return p, 'delete(%s%s)' % (sorted(dn), '' if route == 'cli' else ' via ' + route)
+
+    def op_refused(self):
+        """An operation that is refused or fails: whatever its exit status, the content of the file is what it was."""
+        rng = self.rng
+        what = rng.choice(['weed-short', 'weed-missing', 'delete-unknown', 'delete-all', 'merge-other-k', 'weed-unwritable'])
+        if what == 'weed-short':
+            G.write_fa(self.ctx.path('bad.fa'), [G.rseq(rng, rng.randint(1, self.k - 1)) for _ in range(2)])
+            p = self.run('weed', self.cur, self.ctx.path('bad.fa'), '--min-freq', '0')
+        elif what == 'weed-missing':
+            p = self.run('weed', self.cur, self.ctx.path('no_such_weed_file.fa'), '--min-freq', '0')
+        elif what == 'delete-unknown':
+            p = self.run('delete', '-s', self.cur, self.names[0], 'no_such_sample')
+        elif what == 'delete-all':
+            p = self.run('delete', '-s', self.cur, *self.names)
+        elif what == 'weed-unwritable':
+            if not self.T:
+                return None, None
+            w = next(iter(self.T))
+            G.write_fa(self.ctx.path('wu.fa'), [w[:self.h] + 'A' + w[self.h:] + 'N'])
+            p = self.run('weed', self.cur, self.ctx.path('wu.fa'), '--min-freq', '0', '-o', self.ctx.path('no_such_dir/x.skf'))
+        else:
+            k2 = self.k + 2 if self.k < 63 else self.k - 2
+            G.write_fa(self.ctx.path('otherk.fa'), [G.rseq(rng, 3 * k2)])
+            G.ska_build(self.ctx, self.ctx.path('otherk'), [self.ctx.path('otherk.fa')], k2, True, binary=self.b)
+            # the output name is the history file itself: a refused merge must not have replaced it
+            p = self.run('merge', self.cur, self.ctx.path('otherk.skf'), '-o', self.cur[:-4])
+        return OK(p.stderr, p.returncode), 'refused(%s)' % what
 
     def op_weed(self, reverse, ws=None):
         rng = self.rng
@@ -289,7 +333,7 @@ def run_case(desc, ctx):
                 failed = True
 
         pre = rng.randint(0, 3) if desc['template'] else rng.randint(1, 8)
-        ops = ['merge', 'delete', 'weed', 'rweed', 'filter', 'filter', 'reload']
+        ops = ['merge', 'delete', 'weed', 'rweed', 'filter', 'filter', 'reload', 'refused']
         for _ in range(pre):
             if failed or not hist.T:
                 break
@@ -304,6 +348,8 @@ def run_case(desc, ctx):
                 step(hist.op_weed(True))
             elif op == 'filter':
                 step(hist.op_filter())
+            elif op == 'refused':
+                step(hist.op_refused())
             else:
                 step(hist.op_reload())
         if desc['template'] and not failed and (hist.T or desc['template'] == 'weed_empty_then_merge'):
